@@ -30,6 +30,8 @@ func main() {
 		runKver(r, n)
 	case "k4":
 		runK4(r, n, true)
+	case "kmsz":
+		runKmsz(r, n)
 	case "k5":
 		runK5(r, n)
 	case "k7pair":
